@@ -535,6 +535,9 @@ def _computation(case, tmp):
             parse_string(text, 'bibtex')
     elif kind == 'bibfile':
         path = _write(tmp, 'input.bib', text)
+        if case.get('pathlike'):
+            import pathlib
+            path = pathlib.Path(path)     # a file may be named by any os.PathLike
 
         def run():
             from pybtex.database import parse_file
@@ -545,6 +548,9 @@ def _computation(case, tmp):
             parse_string(text, READER_FORMAT[kind])
     elif kind in ('yamlfile', 'xmlfile'):
         path = _write(tmp, 'input.yaml' if kind == 'yamlfile' else 'input.xml', text)
+        if case.get('pathlike'):
+            import pathlib
+            path = pathlib.Path(path)
 
         def run():
             from pybtex.database import parse_file
@@ -1834,6 +1840,8 @@ def _reader_cases(tier, rng):
     picked = corr + _sample(sub, rest, 700 if quick else 15000)
     for i, c in enumerate(picked):
         cases.append({'op': 'errmodes', 'kind': 'bibfile' if i % 8 == 7 else 'bib', 'text': c10.text_of(c), 'gen': 'C10'})
+        if i % 32 == 15:
+            cases[-1] = dict(cases[-1], kind='bibfile', pathlike=True)      # the file named by a pathlib.Path
     counts['C10'] = len(picked)
     # C15: every lexeme-level corruption and text truncation of the base programs, raw token soup
     cs = c15.gen_corruptions('quick' if quick else 'thorough', {})
@@ -2137,6 +2145,7 @@ def _format_cases(tier, rng, named_only=False):
     cases = [{'op': 'errmodes', 'kind': k, 'text': t} for k, t, _e in READER_CASES]
     for k, t, _e in READER_CASES[:3] + READER_CASES[20:23]:
         cases.append({'op': 'errmodes', 'kind': 'yamlfile' if k == 'yaml' else 'xmlfile', 'text': t})
+        cases.append({'op': 'errmodes', 'kind': 'yamlfile' if k == 'yaml' else 'xmlfile', 'text': t, 'pathlike': True})
     step = 3 if quick else 1
     for i in range(0, len(YAML_GOOD), step):
         cases.append({'op': 'errmodes', 'kind': 'yaml', 'text': YAML_GOOD[:i]})
